@@ -948,6 +948,7 @@ func (cc *Conn) Process(cm *coapNet.ControlMessage, datagram []byte) error {
 	if cc.handleSpecialMessages(req) {
 		return nil
 	}
+	verifHook("enqueue", cc)
 	select {
 	case cc.receivedMessageReader.C() <- req:
 	case <-cc.Context().Done():
